@@ -196,7 +196,7 @@ Definition rle_stream (version : Z) (encs : list (list Z)) : list Z :=
 Lemma decode_rle_stream : forall w h depth version (encs rows : list (list Z)),
   length encs = Z.to_nat h ->
   fits version encs = true ->
-  Forall2 (fun e r => rdec e (Z.max (row_size w depth) 1) = Ok r) encs rows ->
+  Forall2 (fun e r => rdec e (row_size w depth) = Ok r) encs rows ->
   decode_rle rdec (rle_stream version encs) w h depth version = Ok (concat rows).
 Proof.
   intros w h depth version encs rows Hh F H. unfold decode_rle, rle_stream.
@@ -209,13 +209,16 @@ Proof.
 Qed.
 End Rows.
 
-(* the two row decoders of the code accept every conforming row (C05) *)
+(* the two row decoders of the code accept every conforming row (C05), and the empty row of a
+   zero-width raster (size 0) *)
 Definition conforming_decoder (rdec : list Z -> Z -> res (list Z)) : Prop :=
-  forall d n r, bytes d -> expand d = Some r -> len r = n -> 0 < n -> rdec d n = Ok r.
+  forall d n r, bytes d -> expand d = Some r -> len r = n -> (0 < n \/ d = []) -> rdec d n = Ok r.
 
 Lemma py_conforming : conforming_decoder py_decode.
 Proof.
-  intros d n r Hb HE Hn Hpos. apply decode_conforming; try assumption.
+  intros d n r Hb HE Hn [Hpos | ->];
+    [|cbv in HE; inversion HE; subst r; cbv in Hn; subst n; reflexivity].
+  apply decode_conforming; try assumption.
   intros H1. destruct d as [|b [|? ?]]; try discriminate.
   apply expand_single in HE. subst r. unfold len in Hn. cbn [length] in Hn. lia.
 Qed.
@@ -224,7 +227,7 @@ Lemma cy_conforming : conforming_decoder cy_decode.
 Proof.
   intros d n r Hb HE Hn Hpos.
   pose proof (py_conforming d n r Hb HE Hn Hpos) as P.
-  destruct (cy_py_agree d n Hb) as [H|(_ & _ & H)]; [lia|congruence|congruence].
+  destruct (cy_py_agree d n Hb) as [H|(_ & _ & H)]; [pose proof (len_nonneg r); lia|congruence|congruence].
 Qed.
 
 Theorem decode_any_conforming : forall rdec, conforming_decoder rdec ->
@@ -239,12 +242,18 @@ Theorem decode_any_conforming : forall rdec, conforming_decoder rdec ->
 Proof.
   intros rdec HC w h depth version encs rows Hrs Hh Hb HE HL F.
   apply decode_rle_stream; try assumption.
-  rewrite Z.max_l by lia.
   clear Hh F. induction HE; [constructor|].
   apply Forall_cons_iff in Hb. destruct Hb as [Hbx Hb].
   apply Forall_cons_iff in HL. destruct HL as [Hly HL].
   constructor; [|apply IHHE; assumption].
-  apply HC; try assumption.
+  apply HC; try assumption. left. lia.
+Qed.
+
+Lemma conforming_encode rdec : conforming_decoder rdec ->
+  forall r, bytes r -> rdec (encode r) (len r) = Ok r.
+Proof.
+  intros HC r Hb. apply HC; [apply encode_bytes; exact Hb|apply encode_expand|reflexivity|].
+  destruct r as [|x r]; [right; reflexivity|left; unfold len; cbn [length]; lia].
 Qed.
 
 (* ====================================================================== 6. encode_rle and its round trip *)
@@ -273,24 +282,26 @@ Qed.
 
 Theorem rle_roundtrip : forall rdec, conforming_decoder rdec ->
   forall data w h depth version e,
-  bytes data -> 0 <= h -> 0 < row_size w depth -> len data = h * row_size w depth ->
+  bytes data -> 0 <= h -> 0 <= row_size w depth -> len data = h * row_size w depth ->
   encode_rle data w h depth version = Ok e ->
   decode_rle rdec e w h depth version = Ok data.
 Proof.
   intros rdec HC data w h depth version e Hb Hh Hrs HL HE.
   unfold encode_rle in HE. destruct (fits version (rle_rows data w h depth)) eqn:F; [|discriminate].
   inversion HE; subst e; clear HE.
-  destruct (rle_rows_facts data w h depth Hh ltac:(lia) HL) as (FL & C & LN).
+  destruct (rle_rows_facts data w h depth Hh Hrs HL) as (FL & C & LN).
   set (rows := read_n (Z.to_nat h) (Z.to_nat (row_size w depth)) data) in *.
   unfold rle_rows in *. fold rows in F. fold rows.
   change (rle_table version (map encode rows) ++ concat (map encode rows))
     with (rle_stream version (map encode rows)).
   replace (Ok data) with (Ok (concat rows)) by (f_equal; exact C).
-  apply decode_any_conforming; try assumption.
+  apply decode_rle_stream; try assumption.
   - rewrite map_length. exact LN.
-  - apply Forall_map. assert (RB : Forall bytes rows) by (apply read_n_bytes; exact Hb).
-    eapply Forall_impl; [|exact RB]. intros a Ha. apply encode_bytes. exact Ha.
-  - clear. induction rows; cbn [map]; constructor; [apply encode_expand|assumption].
+  - assert (RB : Forall bytes rows) by (apply read_n_bytes; exact Hb).
+    clear - HC FL RB. induction rows as [|r rows IH]; cbn [map]; constructor.
+    + apply Forall_cons_iff in FL. destruct FL as [<- _].
+      apply Forall_cons_iff in RB. destruct RB as [Hr _]. apply conforming_encode; assumption.
+    + apply Forall_cons_iff in FL. apply Forall_cons_iff in RB. apply IH; tauto.
 Qed.
 
 Lemma encode_rle_ok : forall data w h depth version,
